@@ -202,35 +202,68 @@ def run(pm, ctx):
     ip = deref_self_aliases(ip)
     stores = [s for s in ast.walk(ip) if isinstance(s, ast.Assign) and attr_chain(s.targets[0]) == "self.cut_points_list_"]
     site = "Douglas._init_params: cut_points_list_"
-    probs = []
-    merged = False
-    if len(stores) == 1 and isinstance(stores[0].value, ast.ListComp) and len(stores[0].value.generators) == 1:
-        # one construction for both cases: a feature is kept iff there is no mask or the mask holds for it
-        g0 = stores[0].value.generators[0]
-        t0 = norm_src(g0.target)
-        if [str(norm_src(c)) for c in g0.ifs] in ([f"self.feature_mask is None or self.feature_mask[{t0}]"], [f"self.feature_mask[{t0}] if self.feature_mask is not None else True"]):
-            merged = True
-    if len(stores) != 2 and not merged:
-        probs.append(f"{len(stores)} constructions (expected masked and unmasked)")
-    for s in ([] if merged else stores):
+    probs, unrec = [], []
+    merged = len(stores) == 1
+    # which features get cut points, case by case (feature_mask None / given): the features iterated over, with their filters, are read through the
+    # reaching definitions and the enclosing tests, whatever the number of statements that build the list
+    from ..flow import implied_literals
+    from ..match import value_cases, resolve_expr, cfg_node
+    cfg_ip = CFG(ip)
+    MASKNONE = "self.feature_mask is None"
+    seen_cases = set()
+
+    def _range_all(e, at):
+        try:
+            e2 = resolve_expr(cfg_ip, at, e)
+        except Exception:
+            e2 = e
+        return str(norm_src(e2)) in ("range(X.shape[1])", "range(0, X.shape[1])", "range(len(self.feature_mask))") or str(norm_src(e)) in ("range(X.shape[1])",)
+    for s in stores:
         v = s.value
-        if not (isinstance(v, ast.ListComp) and len(v.generators) == 1 and norm_src(v.generators[0].iter) == "range(X.shape[1])" and isinstance(v.elt, ast.Tuple)
+        st_node = cfg_node(cfg_ip, s)
+        if not (isinstance(v, ast.ListComp) and len(v.generators) == 1 and isinstance(v.elt, ast.Tuple) and len(v.elt.elts) == 2
                 and norm_src(v.elt.elts[0]) == norm_src(v.generators[0].target)):
             probs.append(f"`{norm_src(s)[:80]}` does not pair each feature index with its cuts")
             continue
-        conds = [norm_src(p.test) for p in _parents(s) if isinstance(p, ast.If)]
-        masked = any("self.feature_mask is None" in c for c in conds) and _in_else(s)
-        ifs = [norm_src(c) for c in v.generators[0].ifs]
-        if masked and ifs != [f"self.feature_mask[{norm_src(v.generators[0].target)}]"]:
-            probs.append("the masked construction does not filter by feature_mask[i]")
-        if not masked and ifs:
-            probs.append("the unmasked construction filters features")
-    if merged:
-        v = stores[0].value
-        if not (norm_src(v.generators[0].iter) == "range(X.shape[1])" and isinstance(v.elt, ast.Tuple) and norm_src(v.elt.elts[0]) == norm_src(v.generators[0].target)):
-            probs.append(f"`{norm_src(stores[0])[:80]}` does not pair each feature index with its cuts")
+        g = v.generators[0]
+        outer = dict(implied_literals(s))
+        try:
+            cases = value_cases(cfg_ip, st_node, g.iter) if st_node is not None else [(frozenset(), g.iter)]
+        except Exception:
+            cases = [(frozenset(), g.iter)]
+        for lits, it in cases:
+            known = dict(outer)
+            known.update(dict(lits))
+            mn = known.get(MASKNONE)
+            filters = [(norm_src(g.target), c) for c in g.ifs]
+            base = it
+            if isinstance(it, (ast.GeneratorExp, ast.ListComp)) and len(it.generators) == 1 and norm_src(it.elt) == norm_src(it.generators[0].target):
+                filters += [(norm_src(it.generators[0].target), c) for c in it.generators[0].ifs]
+                base = it.generators[0].iter
+            if not _range_all(base, st_node if st_node is not None else s):
+                unrec.append(f"features iterated over: `{norm_src(base)[:60]}`")
+                continue
+            fsrc = [str(norm_src(c)).replace(f"[{tv}]", "[i]") for tv, c in filters]
+            if mn is True:
+                okc = fsrc == []
+                why = "without a mask every feature gets cut points"
+            elif mn is False:
+                okc = fsrc == ["self.feature_mask[i]"]
+                why = "with a mask exactly the features with feature_mask[i] get cut points"
+            else:
+                okc = fsrc in (["self.feature_mask is None or self.feature_mask[i]"], ["self.feature_mask[i] if self.feature_mask is not None else True"])
+                why = "a feature gets cut points iff there is no mask or the mask holds for it"
+            seen_cases.add(mn)
+            if not okc:
+                probs.append(f"in the case {MASKNONE} = {mn} the list is built over {norm_src(base)} with filters {fsrc}: {why}")
+    if stores and not probs and not unrec and not (None in seen_cases or {True, False} <= seen_cases):
+        probs.append(f"cut points are only built for the cases {sorted(map(str, seen_cases))} of `{MASKNONE}`")
+    if not stores:
+        unrec.append("no store to cut_points_list_")
     if probs:
         ctx.violation("C15-a", u.relpath, "Douglas._init_params", norm_src(stores[0])[:120] if stores else "cut_points_list_", "; ".join(probs), line=ip.lineno, site=site)
+    elif unrec:
+        ctx.unrecognised("C15-a", site, "; ".join(unrec))
     else:
         ctx.ok("C15-a", site, "all features without mask; exactly the features with feature_mask[i] otherwise")
     # _compute_grads does not read X
